@@ -3,6 +3,8 @@ EXTENDS LossFilter, TLC
 CONSTANTS MaxN
 Chances == {-5, 0, 1, 50, 99, 100, 250}
 Init == \E c \in Chances : LInit(c)
-Next == n < MaxN /\ \E out \in {<<>>, <<n + 1>>} : Arrive(n + 1, out)
+Outs2 == {<<>>, <<n + 1>>, <<n + 2>>, <<n + 1, n + 2>>, <<n + 2, n + 1>>, <<n + 1, n + 1>>}
+Next == \/ n < MaxN /\ \E out \in {<<>>, <<n + 1>>} : Arrive(n + 1, out)
+        \/ n < MaxN - 1 /\ \E out \in Outs2 : Reentrant(<<n + 1, n + 2>>, out)
 AllOrNothing == (chance <= 0 => d = 0) /\ (chance >= 100 => d = n)
 =============================================================================
